@@ -12,7 +12,7 @@ SPEC = {
         # one black-box test package, three processes so that the quick tier runs them side by side
         _bin("c13-nist", "^TestC13(P384|GroupNIST)$"),
         _bin("c13-edwards", "^TestC13(Goldilocks|GoldilocksLowOrder|FourQ|Ristretto)$"),
-        _bin("c13-bls", "^TestC13(BLSGroups|Pairing|PairingConcurrent|HashToGroup)$"),
+        _bin("c13-bls", "^TestC13(BLSGroups|Pairing|PairingConcurrent|GtAliased|HashToGroup)$"),
         # reduced set on the other arithmetic back-ends (fourq, fp448/goldilocks, p384, ristretto255) — also in the quick tier
         {"name": "c13-alt", "pkg": "./zz_verif/c13", "run": "^TestC13AltBackends$",
          "configs": [c for c in _CFGS if c["name"] != "default"], "quick_configs": ["purego", "alloff"], "shards": {"quick": 1, "thorough": 2}},
